@@ -594,7 +594,12 @@ func (s *Sim) stepEditSet(st Step) bool {
 				setSlotsAnn(o, sl)
 			}
 		case "template":
-			t := Template(c.Labels, abs(st.B))
+			// C=1: the edit goes in raw (kubectl); otherwise through the defaulter,
+			// as the hijack client would send it
+			t := TemplateFor(c, abs(st.B))
+			if st.C == 1 {
+				t = Template(c.Labels, abs(st.B))
+			}
 			o.Spec.Template = t
 		case "partition":
 			if st.B < 0 {
@@ -770,7 +775,7 @@ func (s *Sim) ownerRefs(class int, set *asv1.StatefulSet, c *SetCfg) []metav1.Ow
 // version tv; it creates one (owned by the set if it exists) when none is
 // stored.
 func (s *Sim) findOrMakeRevision(set *asv1.StatefulSet, c *SetCfg, tv int, create bool) string {
-	t := Template(c.Labels, tv)
+	t := TemplateFor(c, tv)
 	want := templateContent(&t)
 	for _, r := range All[*appsv1.ControllerRevision](s.Store, KRev) {
 		if got, ok := RevTemplate(r); ok && got == want {
@@ -823,7 +828,7 @@ func (s *Sim) stepMkPod(st Step) bool {
 	nomatch := (bits>>6)&1 == 1
 	revmode := (bits >> 7) & 3
 	tv := abs(st.D)
-	tmpl := Template(c.Labels, tv)
+	tmpl := TemplateFor(c, tv)
 	rev := ""
 	switch revmode {
 	case 0, 1:
@@ -903,7 +908,7 @@ func (s *Sim) stepMkRev(st Step) bool {
 	bits := abs(st.C)
 	owner := bits & 3
 	lm := (bits >> 2) & 3
-	t := Template(c.Labels, abs(st.B))
+	t := TemplateFor(c, abs(st.B))
 	r := &appsv1.ControllerRevision{}
 	r.Name = fmt.Sprintf("%s-r%d-%d", c.Name, abs(st.B), bits)
 	if st.S != "" {
